@@ -25,6 +25,7 @@ From Chess3 Require Export Spec.RepMultiJudge.
 From Chess3 Require Export Model.Shuffle Model.Batch Model.Chunker Spec.Perm.
 From Chess3 Require Export Model.Eval.
 From Chess3 Require Export Model.EvalAct.
+From Chess3 Require Export Model.EvalSession.
 From Chess3 Require Export Spec.EvalSym.
 From Chess3 Require Export Model.C05Streams.
 From Chess3 Require Export Spec.C05Judge.
